@@ -38,6 +38,32 @@ func c10Bases(thorough bool) []c10Base {
 		{"lib:ifacevalue-structv-bound-func", mk(4, [][]int{{}, {0}, {1}, {2, 0}}, []int{NValue, NStructV, NBound, NFunc}, []int{TIface, 0, 0, TSlice}, true)},
 		{"diamond-funcs", mk(4, [][]int{{}, {0}, {0}, {1, 2}}, []int{NFunc, NFunc, NFunc, NFunc}, []int{TLeaf, TPtr, TIface, TLeaf}, false)},
 	}
+	custom := func(f func(b *ir.Builder) *ir.Program) func() *GraphSpec {
+		return func() *GraphSpec { return &GraphSpec{custom: f} }
+	}
+	bases = append(bases,
+		c10Base{"twins-same-package-name", custom(func(b *ir.Builder) *ir.Program { return twinProgram(true, true, false, 0) })},
+		c10Base{"bind-to-field-and-value", custom(func(b *ir.Builder) *ir.Program {
+			p := b.Root
+			i1, i2 := b.Iface(p, "I1"), b.Iface(p, "I2")
+			c1 := b.Leaf(p, "C1")
+			c1.Impls = []*ir.Type{i1}
+			c1.PtrRecv = true
+			c2 := b.Leaf(p, "C2")
+			c2.Impls = []*ir.Type{i2}
+			gt := b.Leaf(p, "G")
+			hd := b.Agg(p, "Holder", &ir.Field{Name: "F", T: ir.Ptr(c1)}, &ir.Field{Name: "G", T: gt})
+			r := b.Leaf(p, "R")
+			inj := &ir.Injector{Name: "Init", Out: r, Params: []ir.Param{{Name: "h", T: ir.Ptr(hd)}}, Items: []*ir.Item{
+				ir.FieldsOfItem(hd, true, "F", "G"),
+				ir.BindItem(i1, ir.Ptr(c1)),
+				ir.ValueItem(c2, 9005),
+				ir.BindItem(i2, c2),
+				ir.FuncItem(&ir.Func{Pkg: p, Name: "PR", Params: []*ir.Type{i1, i2, gt}, Out: r}),
+			}}
+			return &ir.Program{Root: p, Injectors: []*ir.Injector{inj}}
+		})},
+	)
 	if thorough {
 		bases = append(bases,
 			c10Base{"lib:six-mixed", mk(6, [][]int{{}, {}, {0}, {1, 2}, {3}, {4, 0}}, []int{NValue, NFunc, NBound, NStruct, NField, NFunc}, []int{TLeaf, TPtr, 0, 0, TInt, TLeaf}, true)})
@@ -48,38 +74,72 @@ func c10Bases(thorough bool) []c10Base {
 // unitsOf groups the direct items into units that must stay together: a binding stays with
 // the provider of its concrete type.
 func unitsOf(items []*ir.Item, mergeFields bool) [][]*ir.Item {
-	used := make([]bool, len(items))
-	var units [][]*ir.Item
-	for i, it := range items {
-		if used[i] {
+	owner := make([]int, len(items)) // index of the unit head each item belongs to
+	for i := range owner {
+		owner[i] = i
+	}
+	// a FieldsOf moves with the function providing its struct (quick tier only)
+	if mergeFields {
+		for j, ft := range items {
+			if ft.Kind != ir.IFieldsOf {
+				continue
+			}
+			for i, it := range items {
+				if it.Kind == ir.IFunc {
+					k := it.Fn.Out.Key()
+					if k == ft.T.Key() || k == "*"+ft.T.Key() {
+						owner[j] = i
+						break
+					}
+				}
+			}
+		}
+	}
+	// a binding moves with the item providing its concrete type
+	for j, bt := range items {
+		if bt.Kind != ir.IBind {
 			continue
 		}
-		if it.Kind == ir.IBind || (mergeFields && it.Kind == ir.IFieldsOf) {
-			continue // attached below
-		}
-		u := []*ir.Item{it}
-		used[i] = true
-		for j, bt := range items {
-			if !used[j] && bt.Kind == ir.IBind && it.Kind == ir.IFunc && bt.Conc.Key() == it.Fn.Out.Key() {
-				u = append(u, bt)
-				used[j] = true
+		for i, it := range items {
+			if i != j && providesKey(it, bt.Conc.Key()) {
+				owner[j] = owner[i]
+				break
 			}
-			if mergeFields && !used[j] && bt.Kind == ir.IFieldsOf && it.Kind == ir.IFunc {
-				k := it.Fn.Out.Key()
-				if k == bt.T.Key() || k == "*"+bt.T.Key() {
-					u = append(u, bt)
-					used[j] = true
-				}
+		}
+	}
+	var units [][]*ir.Item
+	for i := range items {
+		if owner[i] != i {
+			continue
+		}
+		u := []*ir.Item{items[i]}
+		for j := range items {
+			if j != i && owner[j] == i {
+				u = append(u, items[j])
 			}
 		}
 		units = append(units, u)
 	}
-	for j, bt := range items {
-		if !used[j] {
-			units = append(units, []*ir.Item{bt})
+	return units
+}
+
+// providesKey reports whether the item itself provides the type with the given key.
+func providesKey(it *ir.Item, key string) bool {
+	switch it.Kind {
+	case ir.IFunc:
+		return it.Fn.Out.Key() == key
+	case ir.IValue, ir.IIfaceValue:
+		return it.T.Key() == key
+	case ir.IStruct, ir.IStructLit:
+		return it.T.Key() == key || "*"+it.T.Key() == key
+	case ir.IFieldsOf:
+		for _, n := range it.Names {
+			if f := it.T.Strip().FieldByName(n); f != nil && (f.T.Key() == key || (it.PtrParent && "*"+f.T.Key() == key)) {
+				return true
+			}
 		}
 	}
-	return units
+	return false
 }
 
 func permutations(n int, visit func([]int)) {
